@@ -58,6 +58,25 @@ def observe_method(image, override=None):
     return "?%d" % n
 
 
+def observe_animated(cls, path, override, env):
+    """Image commands per frame of a real animated draw() with a per-call method override
+    (2-frame source, 1x3 cells): 1 = whole-image frames, 3 = one command per line."""
+    import sys
+
+    from .. import drawlib as dl
+
+    image = cls.from_file(path, width=1, height=3)
+    try:
+        env.take()
+        with dl.patched_time(dl.VirtualTime()):
+            image.draw(method=override, repeat=1, check_size=False)
+        sys.stdout.flush()
+        data = env.take()
+    finally:
+        image.close()
+    return data.count(b"\x1b]1337;File=") / 2
+
+
 def run_history(seed, res, env, steps):
     from PIL import Image
     from term_image.exceptions import StyleError
@@ -93,6 +112,14 @@ def run_history(seed, res, env, steps):
         src = Image.open(src_file)
         with open(src_file, "rb") as f:
             file_bytes = f.read()
+    anim_file = None
+    if family == "iterm2":
+        import tempfile
+
+        fd, anim_file = tempfile.mkstemp(suffix=".gif", dir="/var/tmp", prefix="vf-c20-")
+        os.close(fd)
+        frames = [Image.new("RGB", (4, 6), (30 + 90 * i, 60, 200 - 80 * i)) for i in range(2)]
+        frames[0].save(anim_file, "GIF", save_all=True, append_images=frames[1:], duration=10, loop=0)
     model = {}  # (node key, setting) -> value ; node key = class or ("i", index)
     anim_global = [2 * 2**20]
     ops = []
@@ -266,6 +293,14 @@ def run_history(seed, res, env, steps):
                         if (payload == file_bytes) != bool(eff(n, "read_from_file")):
                             fail("read-from-file-effect", "%s: WHOLE render (%s) %s the source file although read_from_file is effectively %r" % (nm, "method=%s override" % ov if ov else "effective method", "transmits" if payload == file_bytes else "does not transmit", eff(n, "read_from_file")))
                             return
+                    if family == "iterm2" and isinstance(n, type) and anim_file and step % 7 == 0:
+                        ov = rnd.choice(["lines", "whole", "anim", "ANIM"])
+                        per_frame = observe_animated(n, anim_file, ov, env)
+                        res.count("animated draws with a per-call method override")
+                        want_pf = 3 if ov == "lines" else 1
+                        if per_frame != want_pf:
+                            fail("method-override", "%s: animated draw(method=%r) wrote %s image commands per frame, the override asks for %d (effective method %s)" % (nm, ov, per_frame, want_pf, eff(n, "method")))
+                            return
                     if target is not n:
                         target.close()
         res.case((family, tuple(shape), tuple(ops)))
@@ -275,6 +310,8 @@ def run_history(seed, res, env, steps):
         if src_file:
             src.close()
             os.unlink(src_file)
+        if anim_file:
+            os.unlink(anim_file)
         for c in (KittyImage, ITerm2Image, BlockImage):
             c.set_render_method(None)
             c.forced_support = False
